@@ -1,5 +1,5 @@
 // h_ctx: cancellation / deadline scenarios on ctxio.Conn over real transports.
-// line   := <transport unix|tcp|pipe|bridge> <op readbytes|read|write> <kind cancel|deadline> <instant before|blocked|partial|after>
+// line   := <transport unix|tcp|pipe|bridge> <op readbytes|read|write> <kind cancel|deadline> <instant before|blocked|partial|buffered|after>
 // result := class=<ok|ctx|timeout|eof|other:..> speed=<fast|slow:ms> leak=<n> follow=<ok|bad:..>
 package main
 
@@ -111,6 +111,16 @@ func runCase(dir string, n int, line string) (res string) {
 	base := runtime.NumGoroutine()
 	// what the peer does before the operation
 	switch instant {
+	case "buffered":
+		// a complete frame and the head of the next one arrive in one segment; reading the first frame leaves "abc" in the
+		// connection's buffer, and the peer then stalls in the middle of the second frame
+		go peer.Write([]byte("first\x00abc"))
+		lctx, lcancel := context.WithTimeout(context.Background(), 2*time.Second)
+		fr, err := rw.ReadBytes(lctx, 0)
+		lcancel()
+		if err != nil || string(fr) != "first\x00" {
+			return fmt.Sprintf("X setup first frame %q %v", fr, err)
+		}
 	case "partial":
 		go peer.Write([]byte("abc")) // net.Pipe is synchronous: the write completes when the operation reads
 		time.Sleep(20 * time.Millisecond)
